@@ -114,7 +114,7 @@ DecodeStep(s, LM, intra, lv, tr) ==
   IN [ph |-> 2, e |-> u.e[1], l1 |-> u.l1[1], l2 |-> u.l2[1], bg |-> u.bg[1], ld |-> u.ld, skip |-> 0, n |-> s.n + 1, lastlost |-> FALSE,
       pe |-> safe[1], pbg |-> s.bg, pld |-> s.ld, pLM |-> LM]
 LoseStep(s, LM, skip) ==
-  LET u == DecLost(SF(LM), s.ld, skip, One(s.e, 0), One(s.bg, 0))
+  LET u == DecLost(SF(LM), 2, s.ld, skip, One(s.e, 0), One(s.bg, 0))
   IN [ph |-> 2, e |-> u.e[1], l1 |-> s.l1, l2 |-> s.l2, bg |-> s.bg, ld |-> u.ld, skip |-> skip, n |-> s.n + 1, lastlost |-> TRUE,
       pe |-> s.e, pbg |-> s.bg, pld |-> s.ld, pLM |-> LM]
 
